@@ -116,7 +116,7 @@ class Prop:
                 alts = [a for a in alts if a[0] not in [f for f, _ in thin] or id(a) in keep]
             for i in range(0, len(alts), CHUNK):
                 yield dict(kind="alts", univ=g["univ"], setup=g["setup"], alts=alts[i:i + CHUNK], label=g["label"])
-        for g in mut_c02.gen_falsy():
+        for g in list(mut_c02.gen_memo()) + list(mut_c02.gen_falsy()):
             for i in range(0, len(g["alts"]), CHUNK):
                 yield dict(kind="alts", univ=g["univ"], setup=g["setup"], alts=g["alts"][i:i + CHUNK], label=g["label"])
         if not quick:
